@@ -203,8 +203,9 @@ class LogicDense(torch.nn.Module):
                 )
                 x = bin_op_s(a, b, weights)
         elif self.parametrization == "walsh":
-            A = 2 * a -1
-            B = 2 * b -1
+            # in the dtype of the coefficients: 2 * a - 1 wraps around for unsigned integer inputs
+            A = 2 * a.to(self.weight.dtype) - 1
+            B = 2 * b.to(self.weight.dtype) - 1
             basis = torch.stack([
                 torch.ones_like(A),
                 A,
